@@ -22,8 +22,8 @@ impl Property for FuncProp {
             "C15" => "FuncLab: generated feature sets with tags on every level x all 8 presence combinations of --name regex / --tags expression (random AST, depth <= 4) / filter closure, run through Cucumber::custom(VecParser, RecordingRunner, ..).with_cli(..).filter_run(); expected = input features with scenarios filtered by a reference evaluator, everything else equal (gherkin::Feature: PartialEq). Each case also compares TagOperation::eval and the textual tag-expression parser with the reference boolean evaluator. Non-trivial iff the filter keeps some and drops some scenarios and a rule-level tag decides at least one. Distinct = hash of the decoded case.".into(),
             "C16" => "FuncLab: 1-3 generated .feature files per case (outlines at top level and in rules, 1-3 Examples tables, tagged / header-only tables, descriptions and comments before tables, adjacent / repeated / malformed / unknown placeholders, values with <, >, $, \\, regex metacharacters, placeholders in names, step texts, doc strings and step tables) written to disk and read through parser::Basic; reference = single-pass substitution applied to the gherkin crate's own unexpanded parse of the same file. Non-trivial iff a file has >= 2 data rows and a value containing a metacharacter. Distinct = hash of the file texts.".into(),
             "C17" => "FuncLab: 0-8 (keyword, regex from a grammar with nested / optional / named / alternated / multi-byte groups, optional Location) definitions registered in two tape-chosen permutations into fresh Collections; 1-6 step texts derived from the regexes and mutated; Collection::find compared with regex::Regex::{is_match, captures, capture_names}; the chosen fn pointer is invoked and records its index and Context. Non-trivial iff some step is ambiguous or a capture group does not participate. Distinct = hash of definitions + texts + orders.".into(),
-            "C19" => "FuncLab: a compiled zoo of 30 (function, attribute) pairs over one World (sync/async, unit/Result, typed FromStr args, slice, #[step]/`step` argument, literal/regex/expr, custom Parameter with one and several groups, several attributes on one fn); per case 8 step texts built from the entries' own templates with generated ints / words / floats / quoted strings / colours and mutated (prefix, suffix, case, doubled space, digits replaced, other keyword); World::collection().find() must agree with hand-written reference matchers, the chosen function is invoked and must record exactly the expected typed arguments, parse failures / returned Err must fail the step; the inventory is counted per keyword. Non-trivial iff a text with generated values matches an entry, or a parse failure / Err is exercised. Distinct = hash of the decoded texts and outcomes.".into(),
-            "C18" => "FuncLab: exhaustive product of retry tag forms on scenario / rule / feature x neutral tags x --retry x --retry-after x --retry-tag-filter (28 800 cases) plus random cases (random budgets, humantime durations, filter ASTs, undocumented retry… tags which must only not panic); RetryOptions::parse_from_tags vs the reference resolver. Non-trivial iff retry tags on >= 2 levels, or a retry tag together with a CLI value. Distinct = hash of the decoded case.".into(),
+            "C19" => "FuncLab: a second zoo of 40 functions generated at build time (harness/build.rs, VERIF_ZOO_SEED: literal / regex / expr attributes, 0-3 typed parameters, slices, #[step], sync/async, unit / Result / aliased Result, stacked attributes) checked with a generic reference over 4 texts per case, and a compiled zoo of 35 (function, attribute) pairs over one World (sync/async, unit/Result, typed FromStr args, slice, #[step]/`step` argument, literal/regex/expr, custom Parameter with one and several groups, several attributes on one fn); per case 8 step texts built from the entries' own templates with generated ints / words / floats / quoted strings / colours and mutated (prefix, suffix, case, doubled space, digits replaced, other keyword); World::collection().find() must agree with hand-written reference matchers, the chosen function is invoked and must record exactly the expected typed arguments, parse failures / returned Err must fail the step; the inventory is counted per keyword. Non-trivial iff a text with generated values matches an entry, or a parse failure / Err is exercised. Distinct = hash of the decoded texts and outcomes.".into(),
+            "C18" => "FuncLab: every random case also renders a generated option set (--concurrency/-c, --fail-fast/--ff, --retry, --retry-after with humantime texts, --retry-tag-filter with a random expression; `--opt value`, `--opt=value` and short spellings, any order) as argv, parses it with cli::Opts<_, runner::basic::Cli, _> and compares every field with the generated value (durations with a reference unit table, filters as boolean functions over all 32 tag subsets). Exhaustive product of retry tag forms on scenario / rule / feature x neutral tags x --retry x --retry-after x --retry-tag-filter (28 800 cases) plus random cases (random budgets, humantime durations, filter ASTs, undocumented retry… tags which must only not panic); RetryOptions::parse_from_tags vs the reference resolver. Non-trivial iff retry tags on >= 2 levels, or a retry tag together with a CLI value. Distinct = hash of the decoded case.".into(),
             _ => String::new(),
         }
     }
@@ -32,7 +32,7 @@ impl Property for FuncProp {
         match self.id {
             "C16" => vec!["the unexpanded parse by the `gherkin` crate (external dependency) is trusted; the generator checks that it contains the outlines it wrote".into(), "several unknown placeholders: the error may name any of them (R8); header-only tables produce nothing (R11)".into()],
             "C17" => vec!["`regex`'s own is_match/captures API is the reference".into(), "no two definitions share (keyword, regex, location) (R9)".into()],
-            "C19" => vec!["macro expansion happens at compile time: the quantifier over programs is covered by a fixed representative zoo".into(), "expr entries are matched against regexes hand-derived from the Cucumber Expressions spec; float inputs are generated in plain forms only".into()],
+            "C19" => vec!["macro expansion happens at compile time: the quantifier over programs is covered by a fixed representative zoo and by zoos generated at build time (one per VERIF_ZOO_SEED)".into(), "expr entries are matched against regexes hand-derived from the Cucumber Expressions spec; float inputs are generated in plain forms only".into()],
             "C18" => vec!["undocumented `retry…` tags are only required not to panic (R7); at most one retry tag per level (R10)".into(), "the CLI/builder merge half is checked on real runs by the C05/C06/C08 oracles in tags mode and by `C18` RunnerLab cases".into()],
             _ => vec![],
         }
@@ -121,7 +121,14 @@ impl Property for FuncProp {
                 let mut out = c19::check(&mut t, &es);
                 if input.a.first().is_some_and(|x| x % 64 == 0) {
                     out.violations.extend(c19::check_registration(&es));
+                    out.violations.extend(super::zoo2::check_registration(&super::zoo2::entries2()));
                 }
+                // second zoo: functions generated at build time (VERIF_ZOO_SEED), generic reference
+                let out2 = super::zoo2::check(&mut t, 4);
+                out.violations.extend(out2.violations);
+                out.labels.extend(out2.labels);
+                out.nontrivial |= out2.nontrivial;
+                out.sample["generated_zoo"] = out2.sample;
                 crate::lab::driver::install_probe_hook();
                 let mut labels = out.labels;
                 if out.nontrivial {
@@ -133,7 +140,7 @@ impl Property for FuncProp {
                     hash: hash_str(&out.sample.to_string()),
                     labels,
                     sample: ctx.want_sample.then_some(out.sample),
-                    counters: vec![("step_texts", 8)],
+                    counters: vec![("step_texts", 12)],
                     ..CaseOut::default()
                 }
             }
@@ -177,13 +184,16 @@ impl Property for FuncProp {
             }
             "C18" => {
                 let case = c18::gen_case(&mut t);
-                let (violations, nontrivial) = c18::check(&case);
-                let d = case.describe();
+                let (mut violations, nontrivial) = c18::check(&case);
+                let (cv, cli_sample) = c18::check_cli(&mut t);
+                violations.extend(cv);
+                let mut d = case.describe();
+                d["command_line"] = cli_sample;
                 CaseOut {
                     violations,
                     nontrivial,
                     hash: hash_str(&d.to_string()),
-                    labels: if nontrivial { vec!["nontrivial"] } else { vec![] },
+                    labels: if nontrivial { vec!["nontrivial", "cli_argv_parsed"] } else { vec!["cli_argv_parsed"] },
                     sample: ctx.want_sample.then_some(d),
                     ..CaseOut::default()
                 }
